@@ -66,7 +66,17 @@ def main():
                     ok = one_round(port, live + [q], "push, add_assertion, solve")
                 if ok:
                     port.pop()
-                    one_round(port, live, "pop, solve")
+                    ok = one_round(port, live, "pop, solve")
+                if ok:
+                    # two levels opened one by one and closed together (the members only ever see the live conjunction)
+                    port.push()
+                    port.add_assertion(Not(p))
+                    port.push()
+                    port.add_assertion(q)
+                    ok = one_round(port, live + [Not(p), q], "push, add, push, add, solve")
+                if ok:
+                    port.pop(2)
+                    one_round(port, live, "pop 2, solve")
             except Exception as ex:
                 rounds.append({"label": "cycle", "res": "raised", "exc": type(ex).__name__, "value": "na", "model": [], "asserts": []})
         with open(out + ".tmp", "w") as f:
